@@ -151,6 +151,20 @@ CHECKS = {
                 "compatibility oracle: max(delta, minor_exon_extension).",
         "design": "3 C01",
     },
+    "C14": {
+        "text": "Bounded symbolic verification of alignment correction: isoform-anchored symbolic reads (following an isoform within delta; the same "
+                "with one inner exon dropped or shortened) go through the real profile constructor, assigner and ExonCorrector with arbitrary "
+                "symbolic alignment error counts, under the real correction presets (quick: none/default_ont/all; thorough: all six presets and, "
+                "for two loci, the six flags as symbolic booleans); the result is rendered by the real BEDPrinter and parsed back. z3 proves BED12 "
+                "validity (positive sizes, ascending non-overlapping blocks, first start 0, last end = chromEnd, blocks = exons), start/end unchanged "
+                "unless a terminal correction is enabled, every corrected splice site is the read's own / an annotated site within delta / the "
+                "assigned isoform's, and output = input when every correction is off. IlluminaExonCorrector.correct_exons on <=3 symbolic read "
+                "exons x <=3 symbolic short-read introns: start/end kept, ordered exons, introns only from the two sources.",
+        "note": "Trusted: z3, symx proxies, sentinel parsing of BED text. get_error_count is a stub returning arbitrary non-negative counts "
+                "(its contract). Annotations are the C01 catalogue loci. One known finding (short-read intron covering the read end) is "
+                "excluded by its exact input class. Chromosome-length bounds are outside the claim.",
+        "design": "3 C14",
+    },
 }
 
 NOT_BUILT = "check not built yet (build in progress, see DESIGN.md section 5); no claim is made"
